@@ -34,14 +34,17 @@ func failingPayloads(r *simrt.Rand, joined bool) [][]byte {
 	return [][]byte{out[k]}
 }
 
-func genC08(seed uint64, tier string) *Scenario {
+func genC08(seed uint64, tier string) *Scenario { return genOffender(seed, tier, "") }
+
+// genOffender builds a two-witness scenario ending in one offence; force selects the kind.
+func genOffender(seed uint64, tier string, force string) *Scenario {
 	r := simrt.NewRand(seed, "gen:C08")
 	p := histProfile("C08", map[string]int{"switch": 0, "stray_pong": 0}, func(p *Profile) { p.PClose = 0; p.PProbe = 0; p.PBurst = 0; p.PNoPose = 0 })
 	g := &genState{r: r, p: p, joined: map[int]string{}, dead: map[int]bool{}, sessN: 2, nConns: 3}
 	// witnesses: 0 in S0, 1 in S1; the offender is 2
 	g.join(0, "S0")
 	g.join(1, "S1")
-	offJoined := r.Bool(0.75)
+	offJoined := r.Bool(0.75) || force != ""
 	if offJoined {
 		g.join(2, "S0")
 		n := r.Intn(4)
@@ -64,6 +67,9 @@ func genC08(seed uint64, tier string) *Scenario {
 	off := &Offence{}
 	kinds := []string{"frames", "frames", "frames", "burst_fail", "burst_fail", "midframe", "stall", "stall", "silence", "keepalive", "update_then_close", "update_then_close", "close_amid", "close_amid"}
 	off.Kind = kinds[r.Intn(len(kinds))]
+	if force != "" {
+		off.Kind = force
+	}
 	switch off.Kind {
 	case "frames":
 		off.Frame = []string{"bin", "bin", "bin", "bin", "text", "unmasked", "frag", "badlen", "huge", "ping", "pong", "close", "garbage"}[r.Intn(13)]
@@ -91,6 +97,11 @@ func genC08(seed uint64, tier string) *Scenario {
 		off.N = []int{0, 5, 40, 200, 520, 700, 1500}[r.Intn(7)]
 		off.Cut = []int{0, 0, 3, 60, 600}[r.Intn(5)]
 		off.Then = []string{"resume", "resume", "fin", "rst"}[r.Intn(4)]
+		if force != "" {
+			off.Then = "resume"
+			off.N = []int{520, 700, 1500}[r.Intn(3)]
+			off.Cut = []int{60, 600, 700}[r.Intn(3)]
+		}
 		sc.World.Net.Window = []int{2 << 10, 4 << 10, 64 << 10}[r.Intn(3)]
 	case "update_then_close":
 		n := 1 + r.Intn(4)
